@@ -625,6 +625,12 @@ func (g *c35G) genRTMP() *c35Input {
 				sps, pps := c35SPS, c35PPS
 				if g.odd(8) {
 					sps = g.pickBytes([]byte{0x67}, []byte{}, []byte{0x67, 0x42}, bytes.Repeat([]byte{0x67}, 300), []byte{0x67, 0x64, 0x00, 0x0a, 0xff, 0xff, 0xff, 0xff})
+					if g.chance(3) {
+						sps, pps = c35SPS, []byte{}
+					}
+					if (len(sps) == 0 || len(pps) == 0) && g.x.AvoidKey(c35KeyH264EmptyNALU) {
+						sps, pps = []byte{0x67}, c35PPS // known finding: zero-length parameter sets crash the stream's format updater
+					}
 				}
 				avcc := &mp4.AVCDecoderConfiguration{ConfigurationVersion: 1, Profile: 0x42, ProfileCompatibility: 0xc0, Level: 0x28, LengthSizeMinusOne: 3, NumOfSequenceParameterSets: 1,
 					SequenceParameterSets: []mp4.AVCParameterSet{{Length: uint16(len(sps)), NALUnit: sps}}, NumOfPictureParameterSets: 1, PictureParameterSets: []mp4.AVCParameterSet{{Length: uint16(len(pps)), NALUnit: pps}}}
